@@ -84,13 +84,19 @@ checks = {
    "Symbolic execution of json.go with the five options symbolic: the codec invoked receives exactly the options given (receiver structs of the stubbed protojson/jsonpb "
    "calls are read back), nil handling, json.Marshaler/Unmarshaler precedence, error propagation; every path replayed natively where the real codecs must produce valid "
    "JSON that round-trips and shows each option's effect.", "§5 C18"),
+ "C20": ("model_checking",
+   "ParseAnnotatedHex on every ASCII text of length <= 4 (quick) / 5 (thorough): result bytes and accept/reject verdict equal a direct state-machine oracle "
+   "(strings.Split/Index/Map modelled by case splits on separator positions, the Map callback evaluated symbolically, encoding/hex from its SSA). protodump's dumpProto "
+   "on reference-written messages (2 fields, nesting, expand/strings path sets incl. non-matching decoys) prints exactly one entry per field in wire order with the "
+   "reference's number, wire type and value (observed as the fmt.Sprintf call sequence; natively the text is compared), recurses exactly on requested paths; arbitrary "
+   "bytes <= 5/7 never crash it.", "§5 C20"),
 }
 
 na = [
  ("C16", "generator totality/determinism/compilability quantifies over programs and runs through text/template reflection and the Go compiler; no SMT encoding within reach (DESIGN.md §6)"),
 ]
 
-pending = ["C20"]
+pending = []
 
 m = {
  "version": 1,
